@@ -682,6 +682,45 @@ func C13(r *h.Run) {
 		}
 	}
 
+	// ---------- (2d) the request header map belongs to the caller (RequestHeader()): whatever the
+	// library writes into it when the request is sent, it writes on the caller's goroutine,
+	// before the call that triggered the send returns — a caller may read the map right after.
+	// Streams whose request is started by CloseRequest (no Send), context with a deadline ----
+	for i := 0; i < r.N(24, 200); i++ {
+		proto := []string{"connect", "grpc", "grpcweb"}[i%3]
+		opts := []connect.ClientOption{connect.WithCodec(h.ToyCodec{})}
+		hname := "Connect-Timeout-Ms"
+		switch proto {
+		case "grpc":
+			opts, hname = append(opts, connect.WithGRPC()), "Grpc-Timeout"
+		case "grpcweb":
+			opts, hname = append(opts, connect.WithGRPCWeb()), "Grpc-Timeout"
+		}
+		release := make(chan struct{})
+		doer := roundTripFunc(func(req *http.Request) (*http.Response, error) {
+			<-release
+			return nil, errors.New("verif: stop here")
+		})
+		client := connect.NewClient[h.Raw, h.Raw](doer, "http://verif.invalid/verif.Svc/M", opts...)
+		ctx, cancel := context.WithTimeout(context.Background(), 5*time.Second)
+		var announced []string
+		st := client.CallBidiStream(ctx)
+		_ = st.CloseRequest()
+		announced = st.RequestHeader().Values(hname)
+		close(release)
+		_ = st.CloseResponse()
+		cancel()
+		r.Eval("request_header_after_send", fmt.Sprint(proto, i))
+		in := map[string]any{"proto": proto, "program": "CallBidiStream(ctx with a deadline); CloseRequest; read RequestHeader() while the request goroutine is inside HTTPClient.Do"}
+		if i < 6 {
+			r.Sample("request_header_after_send", map[string]any{"in": in, "timeout_header_seen_by_the_caller": announced})
+		}
+		if len(announced) != 1 {
+			r.Fail(h.Failure{Key: "concurrency/request-header-written-late", Family: "request_header_after_send", What: "after CloseRequest returned the caller does not find the announced timeout in its request header map: it is written later, by another goroutine", Input: in, Actual: announced})
+			break
+		}
+	}
+
 	// ---------- (3) pooled decompressors: after messages that end in each early-exit
 	// branch of Decompress (corrupt stream; decompressed size beyond the read limit),
 	// concurrent calls must never be handed the same decompressor ----------
